@@ -607,3 +607,16 @@ Definition norm_q (q : query) : query :=
   match q with QSelect s => QSelect (norm_sel s) | QExplain s => QExplain (norm_sel s) | x => x end.
 Definition norm_res (r : res query) : res query :=
   match r with Ok q => Ok (norm_q q) | x => x end.
+
+(* Keyword-case variants: b is a with the case of ASCII letters changed only outside
+   single-quoted literals (quoted timestamp / JSON-path literals are data, not
+   keywords); [inq] = currently inside a literal. *)
+Fixpoint kwvar_go (inq : bool) (a b : bytes) : Prop :=
+  match a, b with
+  | [], [] => True
+  | x :: a', y :: b' =>
+    (if inq then x = y else lower_byte x = lower_byte y) /\
+    kwvar_go (if x =? 39 then negb inq else inq) a' b'
+  | _, _ => False
+  end.
+Definition kwvar (a b : bytes) : Prop := kwvar_go false a b.
